@@ -32,6 +32,9 @@ CONSTANTS Ufrags,      \* ufrags connections are requested for
 VARIABLE st
 Conns == 1..MaxConns
 Canon(x) == CASE x = "m1" -> "s1" [] x = "m2" -> "s2" [] OTHER -> x
+\* the ufrag a STUN datagram names: the USERNAME up to its first colon. Kind "u1+" is a USERNAME with more than one colon
+\* ("u1:mid:peer"): the ufrag is still u1.
+UOf(kd) == CASE kd = "u1+" -> "u1" [] kd = "u2+" -> "u2" [] OTHER -> kd
 KeyFam(k) == IF k \in {"s6", "t6"} THEN "6" ELSE "4"
 Keys == {Canon(x) : x \in Srcs}
 NoGram == [n |-> 0, src |-> "-", kind |-> "-"]
@@ -79,7 +82,7 @@ dRead(S, x, kd) == [S EXCEPT !.dpc = "lookup", !.dg = [n |-> S.sent + 1, src |->
 dLookup(S) == LET t == S.amap[Canon(S.dg.src)] IN
     [S EXCEPT !.dt = t, !.dpc = IF t # 0 THEN "enq" ELSE IF S.dg.kind # "data" THEN "ufrag" ELSE "idle"]
 dUfrag(S) == LET f == KeyFam(Canon(S.dg.src))
-                 t == IF S.dg.kind \in Ufrags /\ f \in Fams THEN S.listed[f][S.dg.kind] ELSE 0 IN
+                 t == IF UOf(S.dg.kind) \in Ufrags /\ f \in Fams THEN S.listed[f][UOf(S.dg.kind)] ELSE 0 IN
     [S EXCEPT !.dt = t, !.dpc = IF t # 0 THEN "enq" ELSE "idle"]
 \* writePacket: a holder is borrowed from the pool and filled (private to the dispatcher), then - under the connection's lock -
 \* the closed test and the link into the queue are one step: a connection closed in between gets nothing
